@@ -13,7 +13,7 @@ CMPS = ["Lt", "Le", "Gt", "Ge", "Eq", "Ne"]
 BL = ("bytes", "string")
 PRINTABLE = b"abcdefghijklmnopqrstuvwxyzABCDEFGHIJKLMNOPQRSTUVWXYZ0123456789 _-+*/.,:;!?()[]{}<>=#@%&^~|"
 
-ALL_FEATURES = {"probes", "maps", "reasons", "bytes", "strings", "convert", "ifexp", "minmax", "bitops", "internal", "loops", "arrays", "dynarrays", "structs",
+ALL_FEATURES = {"probes", "maps", "reasons", "bytes", "strings", "shifts", "pow", "convert", "ifexp", "minmax", "bitops", "internal", "loops", "arrays", "dynarrays", "structs",
                 "transient", "sender", "value", "fordyn", "forin"}
 
 
@@ -239,6 +239,10 @@ class Gen:
                 opts += ["neg"]
             if "minmax" in self.feat:
                 opts += ["minmax"]
+            if "shifts" in self.feat and t[1] == 256:
+                opts += ["shift"]
+            if "pow" in self.feat:
+                opts += ["pow"]
             if "convert" in self.feat:
                 opts += ["conv"] * 2
             if t == U256 and "dynarrays" in self.feat and any(c.ty[0] == "darr" for c in self.containers(cx, scope)):
@@ -284,6 +288,18 @@ class Gen:
         if k == "neg":
             a = self.nonlit(cx, scope, t, d - 1)
             return None if a is None else E("neg", t, a=a)
+        if k == "shift":
+            a = self.nonlit(cx, scope, t, d - 1)
+            if a is None:
+                return None
+            st = r.choice([U256, U256, ("int", 8, False)])
+            if r.random() < 0.6:
+                b = E("const", st, v=r.choice([0, 1, 2, 7, 8, 31, 128, 254, 255] + ([256, 300] if st == U256 else [])))
+            else:
+                b = self.expr(cx, scope, st, d - 1)
+            return E("shift", t, left=r.random() < 0.5, a=a, b=b)
+        if k == "pow":
+            return self.pow_expr(cx, scope, t, d)
         if k == "minmax":
             a = self.nonlit(cx, scope, t, d - 1)
             if a is None:
@@ -442,6 +458,23 @@ class Gen:
             ln = E("bin", U256, op="Mod", a=ln, b=E("const", U256, v=m + 1))
         return E("slice", (self.bkind, m), a=x, start=E("const", U256, v=0) if r.random() < 0.6 else
                  E("bin", U256, op="Mod", a=self.expr(cx, scope, U256, 1), b=E("const", U256, v=2)), ln=ln)
+
+    def pow_expr(self, cx, scope, t, d):
+        """x ** literal or literal ** x (vyper requires a literal on one side)"""
+        r = self.r
+        x = self.nonlit(cx, scope, t, d - 1)
+        if x is None:
+            return None
+        lo, hi = int_bounds(t)
+        if r.random() < 0.55:
+            return E("bin", t, op="Pow", a=x, b=E("const", t, v=r.choice([0, 1, 2, 2, 3, 4, 5])))
+        base = r.choice([2, 2, 3, 5, 10] + ([-2, -3] if lo < 0 else []))
+        if not (lo <= base <= hi):
+            base = 2
+        if lo < 0:
+            # a signed exponent must not be negative: mask it
+            x = E("bin", t, op="BAnd", a=x, b=E("const", t, v=min(hi, 255))) if False else E("max", t, a=x, b=E("const", t, v=0))
+        return E("bin", t, op="Pow", a=E("const", t, v=base), b=x)
 
     def expr(self, cx, scope, t, d, nonzero_lit=False):
         if t[0] in BL:
